@@ -114,6 +114,9 @@ def run(m, rep, tier):
         objs = [k for k, (ty, _) in enumerate(d.params) if '*' in ty and any(t in ty for t in OBJ_TYPES)]
         if not objs:
             continue
+        if name.startswith('__') and d.has_body and d.storage == 'static':
+            # a private static helper of the header (reserved name): not an entry point; its callers are judged with it inlined
+            continue
         f = m.ifn(name)
         if f is None:
             g4.undecided(name, 'entry point declared in %s but not found in the inlined model' % os.path.basename(d.file))
